@@ -5,7 +5,8 @@ import refmon
 import refrun
 from machgen import Session
 from vcheck import Suite
-from vlib import Rng
+import apigen
+from vlib import Case, Rng
 
 ID = "C11"
 PROPS_MODULE = "AmqModel.Props.C11"
@@ -45,8 +46,90 @@ def gen(tier, seed):
     return cases
 
 
+def api_monitor(case, il, sl):
+    """Through the public API: cancelling a consumer, or dropping it (also by a panic unwinding
+    through its owner), sends Basic.Cancel for its tag once; a second cancel / the drop of a cancelled
+    consumer sends nothing."""
+    il2, _ = apigen.canon(il, [])
+    if any(o.startswith("dropio") or (o.startswith("rep ") and " err " in o) or o.startswith("dropslot") for o in case.ops):
+        return None
+    groups, i = [], 0
+    for o in case.ops:
+        if i >= len(il2):
+            return None
+        g = [il2[i]]; i += 1
+        while i < len(il2) and il2[i].split()[0] in ("sent", "allocreq", "blockedreg"):
+            g.append(il2[i]); i += 1
+        groups.append((o, g))
+    cons = {}
+    pending = {}
+    for o, g in groups:
+        t = o.split()
+        if t[0] == "rep" and t[2] == "consume-ok":
+            pending[t[4]] = (int(t[1]), t[3])
+        elif t[0] == "call" and t[2] == "consume" and g[0].startswith("ret consumer") and t[-1] in pending:
+            cons[t[-1]] = [pending[t[-1]][0], pending[t[-1]][1], False]
+        elif t[0] in ("close-chan", "drop-chan"):
+            for k in [k for k, v in cons.items() if v[0] == int(t[1])]:
+                del cons[k]
+        elif t[0] == "conn" and t[1] == "close":
+            cons.clear()
+        elif t[0] == "cons" and t[2] in ("cancel", "drop", "drop-panic") and t[1] in cons:
+            ch, tag, cancelled = cons[t[1]]
+            cancels = [l for l in g[1:] if l.startswith("sent %d send method %d 60 30 " % (ch, ch))]
+            if g[0] == "ret PANIC":
+                return ("`%s` panicked" % o, "c11-api-panic")
+            if not cancelled and not g[0].startswith("ret err"):
+                if len(cancels) != 1 or ("x:" + tag) not in cancels[0]:
+                    return ("`%s` on a live consumer (channel %d, tag %s): exactly one Basic.Cancel for the tag must be sent, got %s" % (
+                        o, ch, bytes.fromhex(tag).decode(errors="replace"), [l[:80] for l in g[1:]]), "c11-api-cancel")
+            elif cancelled and cancels:
+                return ("`%s` on an already cancelled consumer sent another Basic.Cancel" % o, "c11-api-cancel-twice")
+            if t[2] == "cancel":
+                cons[t[1]][2] = True
+            else:
+                del cons[t[1]]
+    return None
+
+
+def gen_api(tier, seed):
+    rng = Rng(seed + 1111)
+    cases = []
+    n = 200 if tier == "quick" else 4000
+    for i in range(n):
+        g = apigen.ApiGen(rng, 4096)
+        chans = rng.sample(range(1, 9), rng.randint(1, 2))
+        for c in chans:
+            g.open(c)
+        for _ in range(rng.randint(3, 10)):
+            ch = rng.choice(chans)
+            r = rng.random()
+            if r < 0.4:
+                g.ncons += 1
+                cl = "C%d" % g.ncons
+                tag = "amq.ctag-%d" % g.ncons
+                g.op("rep %d consume-ok %s %s" % (ch, apigen.hx(tag), cl))
+                g.call(ch, "consume", [apigen.X(apigen.rstr(rng)), apigen.B(False), apigen.B(False), apigen.B(False), apigen.T(apigen.rtable(rng)), cl])
+                g.consumers[cl] = [ch, tag, False]
+            elif r < 0.9 and g.consumers:
+                cl = rng.choice(sorted(g.consumers))
+                o = rng.choice(["cancel", "cancel", "drop", "drop-panic", "drop-panic"])
+                if not g.consumers[cl][2]:
+                    g.rep_frame(g.consumers[cl][0], apigen.amqp.basic_cancel_ok(g.consumers[cl][0], g.consumers[cl][1]), [apigen.X(g.consumers[cl][1])])
+                g.op("cons %s %s" % (cl, o))
+                g.consumers[cl][2] = True
+                if o != "cancel":
+                    del g.consumers[cl]
+            else:
+                g.random_call(ch)
+        cases.append(Case("k%d" % i, g.ops, {"keep_prefix": 1}))
+    return cases
+
+
 def suites(tier, seed):
-    return [Suite("idle-consumer-backlog", "machine", lambda: [mg.backlog_cases(Rng(seed + 31), "consumer", 70000)], monitor=monitor, nontrivial=lambda c, il: True, canon=mg.canon_nondet, shrink=False, compare=(tier != "quick"), timeout=600,
+    return [Suite("consumers-at-api", "api", lambda: gen_api(tier, seed), monitor=api_monitor, nontrivial=lambda c, il: any(o.startswith("cons ") for o in c.ops), canon=apigen.canon, shards=4, timeout=60,
+                  rule="public API over the real queue ends: consumers created, cancelled, cancelled twice, dropped, dropped by a panic unwinding through their owner: one Basic.Cancel per live consumer, none for a cancelled one; exact diff against the Lean Api model"),
+            Suite("idle-consumer-backlog", "machine", lambda: [mg.backlog_cases(Rng(seed + 31), "consumer", 70000)], monitor=monitor, nontrivial=lambda c, il: True, canon=mg.canon_nondet, shrink=False, compare=(tier != "quick"), timeout=600,
                   rule="a consumer with 70 000 unread deliveries is cancelled by the server: after the 70 000 deliveries exactly one terminal message, then disconnected (quick: monitor only; thorough: also diffed against the model)"),
             Suite("sessions", "machine", lambda: gen(tier, seed), monitor=monitor, nontrivial=nontrivial, canon=mg.canon_nondet, candidate_ok=mg.candidate_ok,
                   rule="random sessions biased to consumer lifecycles: consume, deliveries, client cancel (with deliveries racing the CancelOk), server cancel (nowait t/f), channel close by either side, connection close by either side, on 1-6 channels with several consumers each")]
